@@ -157,6 +157,8 @@ type World struct {
 	FailCall func(inc int, typ string) bool
 	// Latency of event delivery.
 	Latency func(kind string) time.Duration
+	// CallLatency of a scheduler call (round trip to the master), by call type.
+	CallLatency func(typ string) time.Duration
 	// Invalid launches seen by the master (C05 observation point).
 	InvalidLaunches []string
 	RetryUnacked    time.Duration
@@ -262,6 +264,11 @@ func (c *caller) Call(ctx context.Context, call *scheduler.Call) (mesos.Response
 		select {} // a dead process makes no calls
 	}
 	typ := call.GetType().String()
+	if w.CallLatency != nil && typ != "SUBSCRIBE" {
+		if d := w.CallLatency(typ); d > 0 {
+			simrt.Sleep(d) // the HTTP round trip to the master
+		}
+	}
 	lg := CallLog{Inc: c.inc, Type: typ, FwID: call.GetFrameworkID().GetValue()}
 	fail := w.FailCall != nil && typ != "SUBSCRIBE" && w.FailCall(c.inc, typ)
 	defer func() {
